@@ -259,18 +259,38 @@ fn mode_scripted_sdk(case: &Value) -> Value {
             context.variables.insert(k.clone(), v.as_str().unwrap_or("").to_string());
         }
     }
-    let script = case["script"].as_str().unwrap_or("");
-    let outcome = runner::run_script(script, context, None);
+    // optional include files: written under a scratch directory, @DIR@ in the script is replaced by its path
+    let dir = std::env::temp_dir().join(format!("duckverif_replay_inc_{}", std::process::id()));
+    let dir_s = dir.to_string_lossy().to_string();
+    let mut script = case["script"].as_str().unwrap_or("").to_string();
+    if let Some(files) = case["files"].as_object() {
+        let _ = std::fs::remove_dir_all(&dir);
+        std::fs::create_dir_all(&dir).unwrap();
+        for (p, c) in files {
+            std::fs::write(dir.join(p), c.as_str().unwrap_or("").replace("@DIR@", &dir_s)).unwrap();
+        }
+        script = script.replace("@DIR@", &dir_s);
+    }
+    let outcome = match case["entry"].as_str() {
+        Some(entry) => runner::run_script_file(&dir.join(entry).to_string_lossy(), context, None),
+        None => runner::run_script(&script, context, None),
+    };
+    let _ = std::fs::remove_dir_all(&dir);
     let logv = log.borrow().clone();
+    let strip = |s: &str| s.replace(&format!("{}/", dir_s), "");
     match outcome {
         Ok(context) => {
             let mut vars = serde_json::Map::new();
             for (k, v) in &context.variables {
-                vars.insert(k.clone(), json!(v));
+                vars.insert(k.clone(), json!(strip(v)));
             }
             json!({"ok": true, "vars": vars, "log": logv})
         }
-        Err(error) => json!({"ok": false, "error": error_json(&error), "log": logv}),
+        Err(error) => {
+            let mut e = error_json(&error);
+            e["source"] = json!(e["source"].as_str().map(|x| strip(x)));
+            json!({"ok": false, "error": e, "log": logv})
+        }
     }
 }
 
